@@ -10,7 +10,7 @@ from harness import core
 from harness.core import gq, gbool, gstr, glist, gopt, gnat
 from harness import fr  # FRAME adapters
 
-HEADER = """From FrameModel Require Import Num.QcTac Geometry.Rect Cases.Cmp Geometry.RectHist.
+HEADER = """From FrameModel Require Import Num.QcTac Geometry.Rect Cases.Cmp Geometry.RectHist Geometry.RectCoincide.
 Open Scope Qc_scope."""
 
 ASSUMPTIONS = [
@@ -29,6 +29,9 @@ ASSUMPTIONS = [
     "every method result must equal the model on the current values, and the oracle judges it on the values read back just "
     "before the call.  duplicate() results (which share the Point and Shape objects of their source) and more than one cell of "
     "a grid (the cells share one Shape object) are not taken into the pool",
+    "coincidence pairs (kind 'co/<point>/<relation>'): the second rectangle is built from the first by Geometry/RectCoincide.v::coincide "
+    "(shared centre / ll / ur / lr / ul corner x same shape / same area other shape / transposed / same width / same height / same "
+    "perimeter / same aspect ratio); the correspondence also requires the generated rectangle to equal the model's construction",
 ]
 
 OPS = ["ov", "overlap", "inside", "touches", "inter", "eq", "pt", "split_h", "split_v",
@@ -59,9 +62,113 @@ def gen_rect(rng, lattice=True, region=None):
             "loc": rng.choice(["NOPOLY", "NOPOLY", "TRUNK", "NORTH", "EAST"])}
 
 
+ANCHORS = ["centre", "ll", "ur", "lr", "ul"]
+RELS = ["same", "eqarea", "transposed", "samew", "sameh", "eqperim", "eqaspect"]
+GANCHOR = {"centre": "ACentre", "ll": "ALL", "ur": "AUR", "lr": "ALR", "ul": "AUL"}
+
+
+def dy_ok(v):
+    v = F(v)
+    return v > 0 and v.denominator & (v.denominator - 1) == 0 and v.denominator <= 2 ** 10 and v < 2 ** 12
+
+
+def exact_root(a):
+    import math
+    a = F(a)
+    n, d = math.isqrt(a.numerator), math.isqrt(a.denominator)
+    return F(n, d) if a > 0 and n * n == a.numerator and d * d == a.denominator else None
+
+
+def coincide_shape(rng, rel, w, h):
+    """the shape (w', h') standing in relation `rel` to (w, h), and the parameter of the relation (Geometry/RectCoincide.v)"""
+    w, h = F(w), F(h)
+    if rel == "same":
+        return w, h, None
+    if rel == "transposed":
+        return h, w, None
+    if rel == "eqarea":                              # (w k, h / k); preferably the square of the same area (4x1 -> 2x2)
+        ks = [F(1, 2), F(2), F(1, 4), F(4), F(2, 3), F(3, 2), F(3), F(1, 3), F(3, 4), F(4, 3), F(1, 8), F(8)]
+        rng.shuffle(ks)
+        s = exact_root(w * h)
+        if s is not None and s != w and rng.random() < 0.5:
+            ks.insert(0, s / w)
+        for k in ks:
+            if dy_ok(w * k) and dy_ok(h / k):
+                return w * k, h / k, k
+        return w * 2, h / 2, F(2)
+    if rel in ("samew", "sameh"):
+        v = h if rel == "samew" else w
+        c = [x for x in (v / 2, v * 2, v + F(1, 4), v * 4, F(rng.randrange(1, 20), 4)) if x != v and dy_ok(x)]
+        x = rng.choice(c or [F(25, 4) if v != F(25, 4) else F(27, 4)])
+        return (w, x, x) if rel == "samew" else (x, h, x)
+    if rel == "eqperim":                             # (w + d, h - d)
+        c = [d for d in (F(1, 4), F(-1, 4), F(1, 2), F(-1, 2), F(1), F(-1), h / 2, -w / 2, F(rng.randrange(1, 9), 4),
+                         -F(rng.randrange(1, 9), 4)) if dy_ok(w + d) and dy_ok(h - d)]
+        d = rng.choice(c or [h / 2])
+        return w + d, h - d, d
+    if rel == "eqaspect":                            # (w k, h k)
+        ks = [k for k in (F(1, 2), F(2), F(1, 4), F(4), F(3), F(3, 2), F(3, 4), F(5, 4)) if dy_ok(w * k) and dy_ok(h * k)]
+        k = rng.choice(ks or [F(1, 2)])
+        return w * k, h * k, k
+    raise ValueError(rel)
+
+
+def coincide_geom(r, anchor, w, h):
+    """centre of the w x h rectangle sharing the point `anchor` with r"""
+    x0, x1 = r["cx"] - r["w"] / 2, r["cx"] + r["w"] / 2
+    y0, y1 = r["cy"] - r["h"] / 2, r["cy"] + r["h"] / 2
+    cx = r["cx"] if anchor == "centre" else x0 + w / 2 if anchor in ("ll", "ul") else x1 - w / 2
+    cy = r["cy"] if anchor == "centre" else y0 + h / 2 if anchor in ("ll", "lr") else y1 - h / 2
+    return cx, cy
+
+
+def coincide_rect(rng, r, anchor=None, rel=None):
+    """a second rectangle sharing a point with r and a derived quantity with its shape"""
+    anchor = anchor or rng.choice(ANCHORS)
+    rel = rel or rng.choice(RELS)
+    w, h, p = coincide_shape(rng, rel, r["w"], r["h"])
+    cx, cy = coincide_geom(r, anchor, w, h)
+    s = gen_rect(rng)
+    s.update({"cx": cx, "cy": cy, "w": w, "h": h})
+    if rng.random() < 0.7:
+        s["region"] = r["region"]
+    return s, {"a": anchor, "rel": rel, "p": p, "from": "r"}
+
+
+def gshaperel(co):
+    rel, p = co["rel"], co["p"]
+    return {"same": "SSame", "transposed": "STransposed"}.get(rel) or \
+        "(%s %s)" % ({"eqarea": "SEqArea", "samew": "SSameW", "sameh": "SSameH", "eqperim": "SEqPerim",
+                      "eqaspect": "SEqAspect"}[rel], gq(p))
+
+
+def gen_coincide(rng, idx):
+    """the systematic stream: every (shared point) x (shape relation) x (pair method), in turn"""
+    import itertools
+    combos = list(itertools.product(ANCHORS, RELS, ("ov", "overlap", "inside", "touches", "inter", "eq")))
+    anchor, rel, op = combos[idx % len(combos)]
+    r = gen_rect(rng, lattice=rng.random() < 0.9)
+    if rng.random() < 0.4:                           # sides in ratio 4 : 1, 9 : 1 ...: the square of the same area is dyadic
+        u, k = F(rng.randrange(1, 9), rng.choice([1, 2, 4])), rng.choice([4, 4, 9, 16])
+        w, h = (u * k, u) if rng.random() < 0.5 else (u, u * k)
+        r.update({"cx": F(rng.randrange(0, 40), 2) + w / 2, "cy": F(rng.randrange(0, 40), 2) + h / 2, "w": w, "h": h})
+    s, co = coincide_rect(rng, r, anchor, rel)
+    ca = min(r["w"], s["w"]) * min(r["h"], s["h"])
+    case = {"op": op, "r": r, "s": s, "co": co, "kind": f"co/{anchor}/{rel}",
+            "eps": rng.choice([F(0), F(1, 1024), F(1, 64), F(1, 4), F(1)]),
+            "aeps": rng.choice([F(0), F(1, 1024), F(1, 16), F(1, 2), F(3), ca, ca, r["w"] * r["h"]])}
+    if rng.random() < 0.5:
+        case["r"], case["s"] = case["s"], case["r"]
+        co["from"] = "s"
+    return case
+
+
 def related(rng, r):
     """A second rectangle in a chosen relative configuration to r."""
-    kind = rng.choice(["lattice", "identical", "edge", "corner", "nested", "crossing", "sliver", "far"])
+    kind = rng.choice(["lattice", "identical", "edge", "corner", "nested", "crossing", "sliver", "far", "coincide", "coincide"])
+    if kind == "coincide":
+        s, co = coincide_rect(rng, r)
+        return f"co/{co['a']}/{co['rel']}", s, co
     x0, x1 = r["cx"] - r["w"] / 2, r["cx"] + r["w"] / 2
     y0, y1 = r["cy"] - r["h"] / 2, r["cy"] + r["h"] / 2
     d = F(rng.randrange(1, 9), 4)
@@ -69,7 +176,7 @@ def related(rng, r):
     tiny = F(1, rng.choice([64, 256, 1024]))
     if kind == "lattice":
         s = gen_rect(rng)
-        return kind, s
+        return kind, s, None
     if kind == "identical":
         bx = (x0, y0, x1, y1)
     elif kind == "edge":
@@ -99,7 +206,7 @@ def related(rng, r):
     s.update({"cx": (a0 + a1) / 2, "cy": (b0 + b1) / 2, "w": a1 - a0, "h": b1 - b0})
     if rng.random() < 0.7:
         s["region"] = r["region"]
-    return kind, s
+    return kind, s, None
 
 
 def gen_case(rng):
@@ -109,12 +216,16 @@ def gen_case(rng):
     x0, x1 = r["cx"] - r["w"] / 2, r["cx"] + r["w"] / 2
     y0, y1 = r["cy"] - r["h"] / 2, r["cy"] + r["h"] / 2
     if op in ("ov", "overlap", "inside", "touches", "inter", "eq"):
-        kind, s = related(rng, r)
+        kind, s, co = related(rng, r)
         case["s"], case["kind"] = s, kind
+        if co:
+            case["co"] = co
         case["eps"] = rng.choice([F(0), F(1, 1024), F(1, 64), F(1, 4), F(1)])
         case["aeps"] = rng.choice([F(0), F(1, 1024), F(1, 16), F(1, 2), F(3)])
         if rng.random() < 0.5:
             case["r"], case["s"] = case["s"], case["r"]
+            if co:
+                co["from"] = "s"
     elif op == "pt":
         case["px"] = rng.choice([x0, x1, r["cx"], x0 - F(1, 8), x1 + F(1, 8), x0 + F(1, 64), F(rng.randrange(0, 100), 8)])
         case["py"] = rng.choice([y0, y1, r["cy"], y0 - F(1, 8), y1 + F(1, 8), y1 - F(1, 64), F(rng.randrange(0, 100), 8)])
@@ -172,6 +283,7 @@ def gen_extra(rng):
     rs = [k for k in ("r", "s") if k in case]
     if kind == "ints":
         m = 8
+        case.pop("co", None)             # the parameter of the relation is not scaled: the pair is kept, the annotation dropped
         for k in rs:
             case[k] = dict(case[k], **{f: case[k][f] * m for f in ("cx", "cy", "w", "h")})
         for f in ("px", "py", "x"):
@@ -294,6 +406,15 @@ def pow2(n):
 def to_coq(case, obs):
     if case["op"] == "hist":
         return hist_to_coq(case, obs)
+    if case.get("co"):
+        co = case["co"]
+        base, other = ("r", "s") if co["from"] == "r" else ("s", "r")
+        B, O = fr.grect(case[base]), fr.grect(case[other])
+        return f"geom_eqb (coincide {GANCHOR[co['a']]} {gshaperel(co)} {B} {O}) {O} && ({to_coq_op(case, obs)})"
+    return to_coq_op(case, obs)
+
+
+def to_coq_op(case, obs):
     op = case["op"]
     R = fr.grect(case["r"])
     v = obs["v"]
@@ -580,8 +701,10 @@ def gen_hist(rng):
             # put i against / onto j: edge contact, partial overlap, same centre
             j = rng.choice([k for k in range(len(cur)) if k != i])
             s = cur[j]
-            how = rng.choice(["east", "north", "overlap", "centre"])
-            if how == "east":
+            how = rng.choice(["east", "north", "overlap", "centre", "coincide", "coincide"])
+            if how == "coincide":
+                coincide_write(i, j)
+            elif how == "east":
                 write(i, "cx", s["cx"] + s["w"] / 2 + r["w"] / 2)
                 if rng.random() < 0.5:
                     write(i, "cy", s["cy"])
@@ -609,6 +732,17 @@ def gen_hist(rng):
         else:
             f = rng.choice(list(FIELDS))
             write(i, f, r[f])                       # a write that changes nothing
+
+    def coincide_write(i, j):
+        # object i is given a point and a derived quantity of object j (all four fields written, in a random order)
+        t = cur[j]
+        anchor, rel = rng.choice(ANCHORS), rng.choice(RELS)
+        w, h, _ = coincide_shape(rng, rel, t["w"], t["h"])
+        cx, cy = coincide_geom(t, anchor, w, h)
+        m = rng.choice(["attr", "iadd", "setter", None])
+        for f, v in rng.sample([("cx", cx), ("cy", cy), ("w", w), ("h", h)], 4):
+            write(i, f, v, m)
+        return anchor, rel
 
     def a_read(op=None):
         op = op or rng.choice(OPS)
@@ -640,8 +774,26 @@ def gen_hist(rng):
         if v is not None:
             cur.append(v)
 
-    template = rng.choice(["read-write-read", "read-write-read", "all-fields", "child", "random", "random"])
-    if template == "read-write-read":
+    template = rng.choice(["read-write-read", "read-write-read", "all-fields", "child", "random", "random", "coincide"])
+    if template == "coincide":
+        # read a pair, make one object coincide with the other in a point and a derived quantity, read the pair again
+        i = rng.randrange(len(cur))
+        j = rng.choice([k for k in range(len(cur)) if k != i])
+        op = rng.choice(["ov", "ov", "inter", "inside", "overlap"])
+        ops.append(dict(q_params(rng, op, cur[i], cur[j]), t="q", i=i, j=j))
+        coincide_write(i, j)
+        if rng.random() < 0.5:
+            t = rng.choice(["fixed", "hard", "region"])
+            v = cur[j]["region"] if t == "region" else rng.random() < 0.5
+            ops.append({"t": t, "i": i, "v": v})
+            cur[i][t] = v
+        for op2 in [op] + rng.sample(list(PAIR_OPS), 2):
+            a, b = (i, j) if rng.random() < 0.5 else (j, i)
+            d = q_params(rng, op2, cur[a], cur[b])
+            if rng.random() < 0.3:
+                d["aeps"] = min(cur[a]["w"], cur[b]["w"]) * min(cur[a]["h"], cur[b]["h"])     # tie with the area tolerance
+            ops.append(dict(d, t="q", i=a, j=b))
+    elif template == "read-write-read":
         # the same read before and after a write to one of its operands
         d = a_read()
         for _ in range(rng.choice([1, 1, 2])):
@@ -927,11 +1079,16 @@ def run(ctx, out, replay=None):
     mult = (3 if ctx.quick() else 1.5) if translation_tie(ctx, out) == "skipped" else 1
     n = int((3000 if ctx.quick() else 60000) * mult)
     out.rule = ("random Rectangle method calls on lattice/dyadic rectangles; pairs drawn by relative configuration "
-                "(identical, edge, corner, nested, crossing, sliver, far); distinct by canonical hash of the case; "
+                "(identical, edge, corner, nested, crossing, sliver, far, coincide); distinct by canonical hash of the case; "
                 "non-trivial = every case (each exercises one modelled method with an outcome that depends on the geometry).  "
                 "Extra stream: integer coordinates passed as Python ints, rectangles left of / below / straddling / ending exactly "
                 "at the origin, region names that are prefixes of each other, grids of 9..256 cells, exact ties (common area equal "
                 "to the area tolerance, gap equal to the distance tolerance, smaller piece equal to the sliver bound).  "
+                "Coincidence stream (Geometry/RectCoincide.v): every combination of a shared point (centre, ll, ur, lr, ul corner) "
+                "x a shape relation (same shape, same area with another shape - preferably the square of the same area, 4x1 vs 2x2 -, "
+                "transposed, same width, same height, same perimeter, same aspect ratio) x the six pair methods, in turn; area "
+                "tolerance also exactly the common area; the same pairs occur among the random pairs, in the pools of the "
+                "histories, and are produced inside histories by writes (template 'coincide', snap 'coincide').  "
                 "Object histories: a pool of 2-4 related rectangles, 3-14 operations: the same read before and after a write to an "
                 "operand; all four fields of one object written in turn with a read after each; a returned rectangle and its parent "
                 "written independently; random mixes of writes (shift, snap against / onto another object, resize, flags, "
@@ -947,6 +1104,9 @@ def run(ctx, out, replay=None):
     xrng = __import__("random").Random(f"C18-extra-{ctx.seed}")
     for _ in range(int((300 if ctx.quick() else 3000) * mult)):
         cases.append(gen_extra(xrng))
+    crng = __import__("random").Random(f"C18-coincide-{ctx.seed}")
+    for k in range(int((420 if ctx.quick() else 4200) * mult)):
+        cases.append(gen_coincide(crng, k))
     nh = int((1200 if ctx.quick() else 12000) * mult)
     hrng = __import__("random").Random(f"C18-hist-{ctx.seed}")
     for _ in range(nh):
